@@ -751,15 +751,34 @@ func init() {
 					s.Unknown("ws/"+n, "-", "anchor not found")
 					continue
 				}
+				// the set's own RuneNotInSet decides where trimming stops: called on the set parameter in a branch or loop
+				// condition, or handed (bound to the set parameter) to a strings.*Func search
 				uses := false
+				var setParam ssa.Value
+				for _, p := range f.Params {
+					if isPESPtr(p.Type()) {
+						setParam = p
+					}
+				}
 				for _, b := range f.Blocks {
 					for _, ins := range b.Instrs {
-						if call, ok := ins.(*ssa.Call); ok {
-							if cl := call.Common().StaticCallee(); cl != nil && cl.Name() == "RuneNotInSet" {
-								if iff, ok := lastIf(b); ok && iff.Cond == ssa.Value(call) {
-									// the true branch returns
-									if _, isRet := b.Succs[0].Instrs[len(b.Succs[0].Instrs)-1].(*ssa.Return); isRet {
+						switch x := ins.(type) {
+						case *ssa.Call:
+							if cl := x.Common().StaticCallee(); cl != nil && cl.Name() == "RuneNotInSet" && len(x.Common().Args) > 0 && x.Common().Args[0] == setParam {
+								for _, r := range *x.Referrers() {
+									switch r.(type) {
+									case *ssa.If, *ssa.UnOp, *ssa.Phi, *ssa.BinOp:
 										uses = true
+									}
+								}
+							}
+						case *ssa.MakeClosure:
+							if fn, ok := x.Fn.(*ssa.Function); ok && strings.HasPrefix(fn.Name(), "RuneNotInSet") && len(x.Bindings) == 1 && x.Bindings[0] == setParam {
+								for _, r := range *x.Referrers() {
+									if call, ok := r.(*ssa.Call); ok {
+										if cl := call.Common().StaticCallee(); cl != nil && core.PkgPathOf(cl) == "strings" && strings.HasSuffix(cl.Name(), "Func") {
+											uses = true
+										}
 									}
 								}
 							}
@@ -1011,6 +1030,13 @@ func init() {
 				if f == nil {
 					s.Unknown(key, "-", "anchor not found")
 					continue
+				}
+				// when the table evaluator interpreted the body at every use, nothing about its meaning is assumed
+				if env := BuildTables(c); f.Object() != nil {
+					if fo, ok := f.Object().(*types.Func); ok && env.interpreted[fo.FullName()] && !env.assumed[fo.FullName()] {
+						s.OK(key, c.P.Pos(f.Pos()), "meaning read off the body by the table evaluator at every use (nothing assumed)")
+						continue
+					}
 				}
 				var bad []string
 				var alloc *ssa.Alloc
